@@ -296,6 +296,10 @@ def _thrift_buf(prop, case, f):
         # _common_metadata has no row groups: the buffer is exactly len(str(key_values)) when that exceeds 500000, with no room for
         # the schema and the remaining fields
         return f.get("kind") in ("process_crash", "hang") and case.get("big") is True and case.get("target") == "_metadata"
+    if f.get("kind") in ("process_crash", "hang") and case.get("biglist") == "columns":
+        # a row group with far more column chunks than the schema has columns: the estimate 1000 * len(schema) * len(row_groups)
+        # does not grow with it (>= 20 bytes per serialised chunk)
+        return case.get("length", 0) * 20 >= 499000
     if f.get("kind") not in ("process_crash", "hang") or "big" not in case or case.get("big") == "kv_value":
         return False
     est = case["size"] * (1.5 if case["big"] == "statistics_max" else 1.0)
@@ -399,6 +403,8 @@ def _san(f, san, whats, func, lines, access=None, msg=None):
 
 def _thrift_big(case):
     inner = case.get("inner") or {}
+    if case.get("driver") == "c10" and inner.get("biglist") == "columns":
+        return inner.get("length", 0) * 20 >= 499000
     if case.get("driver") != "c10" or "big" not in inner or inner.get("big") == "kv_value":
         return False
     return inner["size"] * (1.5 if inner["big"] == "statistics_max" else 1.0) >= 499000
